@@ -703,3 +703,187 @@ Proof.
   - rewrite (H2 E). unfold zero. cbn [ofZ ROps]. destruct (Rltb 0 0) eqn:E2; rbool; apply Rleb_true; lra.
   - apply Rleb_true. apply H3. lra.
 Qed.
+
+(* ====================================================================== G. KKT => (unique) minimiser, by convexity *)
+Definition S1 (n : nat) (f : nat -> R) : R := sumR (map f (seq 0 n)).
+Definition Bil (a : nat -> nat -> R) (n : nat) (p q : nat -> R) : R := S1 n (fun i => S1 n (fun j => p i * (a i j * q j))).
+
+Lemma S1_ext n f g : (forall i, (i < n)%nat -> f i = g i) -> S1 n f = S1 n g.
+Proof. intros H. unfold S1. apply sumR_map_ext. intros i Hi. apply in_seq in Hi. apply H. lia. Qed.
+Lemma S1_add n f g : S1 n (fun i => f i + g i) = S1 n f + S1 n g.
+Proof. unfold S1. apply sumR_map_add. Qed.
+Lemma S1_scal n c f : S1 n (fun i => c * f i) = c * S1 n f.
+Proof. unfold S1. apply sumR_map_scal. Qed.
+Lemma S1_le n f g : (forall i, (i < n)%nat -> f i <= g i) -> S1 n f <= S1 n g.
+Proof.
+  unfold S1. intros H. assert (G : forall l, (forall i, In i l -> f i <= g i) -> sumR (map f l) <= sumR (map g l)).
+  { induction l as [|x l IH]; intros Hl; cbn; [lra|]. pose proof (Hl x (or_introl eq_refl)).
+    assert (sumR (map f l) <= sumR (map g l)) by (apply IH; intros; apply Hl; right; assumption). lra. }
+  apply G. intros i Hi. apply in_seq in Hi. apply H. lia.
+Qed.
+Lemma S1_zero n f : (forall i, (i < n)%nat -> f i = 0) -> S1 n f = 0.
+Proof. intros H. unfold S1. apply sumR_map_zero. intros i Hi. apply in_seq in Hi. apply H. lia. Qed.
+Lemma S1_swap n (f : nat -> nat -> R) : S1 n (fun i => S1 n (fun j => f i j)) = S1 n (fun j => S1 n (fun i => f i j)).
+Proof. unfold S1. apply sumR_swap. Qed.
+
+Lemma Bil_ext a n p q p' q' : (forall i, (i < n)%nat -> p i = p' i) -> (forall i, (i < n)%nat -> q i = q' i) ->
+  Bil a n p q = Bil a n p' q'.
+Proof. intros Hp Hq. unfold Bil. apply S1_ext. intros i Hi. apply S1_ext. intros j Hj. rewrite Hp, Hq by assumption. reflexivity. Qed.
+Lemma Bil_add_r a n p q r : Bil a n p (fun j => q j + r j) = Bil a n p q + Bil a n p r.
+Proof.
+  unfold Bil. rewrite <- S1_add. apply S1_ext. intros i _. rewrite <- S1_add. apply S1_ext. intros j _. ring.
+Qed.
+Lemma Bil_add_l a n p q r : Bil a n (fun j => p j + q j) r = Bil a n p r + Bil a n q r.
+Proof.
+  unfold Bil. rewrite <- S1_add. apply S1_ext. intros i _. rewrite <- S1_add. apply S1_ext. intros j _. ring.
+Qed.
+Lemma Bil_sym a n p q : (forall i j, (i < n)%nat -> (j < n)%nat -> a i j = a j i) -> Bil a n p q = Bil a n q p.
+Proof.
+  intros Hs. unfold Bil. rewrite S1_swap. apply S1_ext. intros i Hi. apply S1_ext. intros j Hj.
+  rewrite (Hs j i) by assumption. ring.
+Qed.
+
+Section Convex.
+  Variable n : nat.
+  Variable a : nat -> nat -> R.
+  Variables bb dd yy : nat -> R.
+  Hypothesis Hsym : forall i j, (i < n)%nat -> (j < n)%nat -> a i j = a j i.
+  Let ee := fun i => yy i - dd i.
+  Let gg := fun i => S1 n (fun j => a i j * dd j) - bb i.
+  Let FF := fun x : nat -> R => / 2 * Bil a n x x - S1 n (fun i => bb i * x i).
+
+  Lemma objective_expansion : FF yy - FF dd = S1 n (fun i => gg i * ee i) + / 2 * Bil a n ee ee.
+  Proof.
+    unfold FF.
+    assert (Hy : Bil a n yy yy = Bil a n dd dd + Bil a n dd ee + (Bil a n ee dd + Bil a n ee ee)).
+    { rewrite (Bil_ext a n yy yy (fun i => dd i + ee i) (fun i => dd i + ee i)) by (intros; unfold ee; ring).
+      rewrite Bil_add_l, !Bil_add_r. reflexivity. }
+    rewrite Hy. rewrite (Bil_sym a n dd ee Hsym).
+    assert (Hb : S1 n (fun i => bb i * yy i) = S1 n (fun i => bb i * dd i) + S1 n (fun i => bb i * ee i)).
+    { rewrite <- S1_add. apply S1_ext. intros i _. unfold ee. ring. }
+    rewrite Hb.
+    assert (Hg : S1 n (fun i => gg i * ee i) = Bil a n ee dd - S1 n (fun i => bb i * ee i)).
+    { unfold Bil, gg. replace (S1 n (fun i => S1 n (fun j => ee i * (a i j * dd j))) - S1 n (fun i => bb i * ee i))
+        with (S1 n (fun i => S1 n (fun j => ee i * (a i j * dd j))) + S1 n (fun i => -1 * (bb i * ee i)))
+        by (rewrite S1_scal; ring).
+      rewrite <- S1_add. apply S1_ext. intros i _.
+      replace (S1 n (fun j => ee i * (a i j * dd j))) with (ee i * S1 n (fun j => a i j * dd j))
+        by (symmetry; apply (S1_scal n (ee i) (fun j => a i j * dd j))).
+      ring. }
+    rewrite Hg. lra.
+  Qed.
+End Convex.
+
+(* ---- back to lists ---- *)
+Definition sym_mat (n : nat) (A : list (list R)) : Prop :=
+  forall i j, (i < n)%nat -> (j < n)%nat -> nth j (rowR A i) 0 = nth i (rowR A j) 0.
+Definition quadR (A : list (list R)) (x : list R) : R := dotR x (map (fun r => dotR r x) A).
+Definition pos_def (n : nat) (A : list (list R)) : Prop :=
+  forall x, length x = n -> (exists i, (i < n)%nat /\ nth i x 0 <> 0) -> 0 < quadR A x.
+Definition objR (A : list (list R)) (b x : list R) : R := / 2 * quadR A x - dotR b x.
+
+Lemma objective_objR A b x : @objective ROps A b x = objR A b x.
+Proof.
+  unfold objective, objR, quadR, mat_vec, half, one, two. cbn [sub mul div ofZ ROps]. rewrite !dot_dotR.
+  rewrite (map_ext (fun r : list R => @dot ROps r x) (fun r => dotR r x)) by (intros; apply dot_dotR).
+  norm. lra.
+Qed.
+
+Definition aij (A : list (list R)) (i j : nat) : R := nth j (rowR A i) 0.
+Definition vf (x : list R) (i : nat) : R := nth i x 0.
+
+Lemma dotR_S1 n (r x : list R) : length r = n -> length x = n -> dotR r x = S1 n (fun j => vf r j * vf x j).
+Proof. intros Hr Hx. rewrite dotR_seq by lia. rewrite Hx. reflexivity. Qed.
+Lemma quadR_Bil n A b x : wf n A b -> length x = n -> quadR A x = Bil (aij A) n (vf x) (vf x).
+Proof.
+  intros Hwf Hx. pose proof Hwf as [HA [Hr Hb]]. unfold quadR, Bil.
+  rewrite (dotR_S1 n) by (auto; rewrite map_length; exact HA).
+  apply S1_ext. intros i Hi.
+  assert (Hrow : vf (map (fun r => dotR r x) A) i = dotR (rowR A i) x).
+  { unfold vf. rewrite (nth_indep _ 0 (dotR [] x)) by (rewrite map_length; lia).
+    exact (map_nth (fun r => dotR r x) A [] i). }
+  rewrite Hrow. rewrite (dotR_S1 n (rowR A i) x) by (auto; eapply row_length; eauto).
+  rewrite <- S1_scal. apply S1_ext. intros j Hj. unfold aij, vf. reflexivity.
+Qed.
+
+Definition sumv (y : list R) : R := sumR y.
+Lemma sumR_S1 (y : list R) : sumR y = S1 (length y) (vf y).
+Proof.
+  unfold S1, vf. induction y as [|x y IH]; [reflexivity|]. cbn [length seq map sumR nth].
+  rewrite <- seq_shift, map_map. cbn [nth]. rewrite IH. reflexivity.
+Qed.
+
+Lemma all_zero_dec (n : nat) (e : nat -> R) :
+  (forall i, (i < n)%nat -> e i = 0) \/ (exists i, (i < n)%nat /\ e i <> 0).
+Proof.
+  induction n as [|n IH]; [left; intros; lia|].
+  destruct IH as [IH|[i [Hi He]]]; [|right; exists i; split; [lia|exact He]].
+  destruct (Req_dec (e n) 0) as [E|E]; [left|right; exists n; split; [lia|exact E]].
+  intros i Hi. destruct (Nat.eq_dec i n); [subst; exact E|apply IH; lia].
+Qed.
+
+Lemma Bil_zero a n p q : (forall i, (i < n)%nat -> p i = 0) -> Bil a n p q = 0.
+Proof. intros H. unfold Bil. apply S1_zero. intros i Hi. apply S1_zero. intros j _. rewrite H by assumption. ring. Qed.
+
+(* F(y) - F(d) = g . (y - d) + 1/2 (y - d)^T A (y - d) *)
+Lemma objR_expansion n A b d y : wf n A b -> sym_mat n A -> length d = n -> length y = n ->
+  let e := fun i => vf y i - vf d i in
+  objR A b y - objR A b d = S1 n (fun i => gradR A b d i * e i) + / 2 * Bil (aij A) n e e.
+Proof.
+  intros Hwf Hsym Hd Hy e. pose proof Hwf as [HA [Hr Hb]]. unfold objR.
+  rewrite (quadR_Bil n A b y Hwf Hy), (quadR_Bil n A b d Hwf Hd).
+  rewrite !(dotR_S1 n) by assumption.
+  pose proof (objective_expansion n (aij A) (vf b) (vf d) (vf y) Hsym) as HE. cbv zeta in HE.
+  rewrite HE. f_equal. apply S1_ext. intros i Hi. unfold gradR.
+  rewrite (dotR_S1 n) by (auto; eapply row_length; eauto). reflexivity.
+Qed.
+
+Theorem kkt_minimiser n A b d (tau : R) y :
+  wf n A b -> sym_mat n A -> pos_def n A -> 0 <= tau -> KKT A b d tau ->
+  length y = n -> (forall i, (i < n)%nat -> 0 <= nth i y 0) ->
+  objR A b d - tau * sumR y <= objR A b y.
+Proof.
+  intros Hwf Hsym Hpd Ht [Hl Hk] Hy Hpos. pose proof Hwf as [HA [Hr Hb]]. rewrite Hb in *.
+  pose proof (objR_expansion n A b d y Hwf Hsym Hl Hy) as HE. cbv zeta in HE.
+  set (e := fun i => vf y i - vf d i) in *.
+  assert (Hq : 0 <= Bil (aij A) n e e).
+  { destruct (all_zero_dec n e) as [Hz|Hnz]; [rewrite Bil_zero by exact Hz; lra|].
+    set (el := map e (seq 0 n)).
+    assert (Hel : length el = n) by (unfold el; rewrite map_length, seq_length; reflexivity).
+    assert (Hev : forall i, (i < n)%nat -> vf el i = e i) by (intros i Hi; unfold vf, el; apply nth_map_seq; exact Hi).
+    pose proof (Hpd el Hel) as H0. rewrite (quadR_Bil n A b el Hwf Hel) in H0.
+    rewrite (Bil_ext _ n (vf el) (vf el) e e Hev Hev) in H0. apply Rlt_le. apply H0.
+    destruct Hnz as [i [Hi He]]. exists i. split; [exact Hi|]. change (vf el i <> 0). rewrite Hev by exact Hi. exact He. }
+  assert (Hg : - tau * S1 n (vf y) <= S1 n (fun i => gradR A b d i * e i)).
+  { rewrite <- S1_scal. apply S1_le. intros i Hi. destruct (Hk i Hi) as [H1 [H2 H3]]. specialize (Hpos i Hi).
+    unfold e, vf in *. destruct (Rle_lt_or_eq_dec _ _ H1) as [Hlt|Heq].
+    - rewrite (H2 Hlt). nra.
+    - specialize (H3 (eq_sym Heq)). rewrite <- Heq. nra. }
+  rewrite sumR_S1, Hy. lra.
+Qed.
+
+Theorem kkt_unique_minimiser n A b d y :
+  wf n A b -> sym_mat n A -> pos_def n A -> KKT A b d 0 ->
+  length y = n -> (forall i, (i < n)%nat -> 0 <= nth i y 0) ->
+  objR A b y <= objR A b d -> y = d.
+Proof.
+  intros Hwf Hsym Hpd [Hl Hk] Hy Hpos Hle. pose proof Hwf as [HA [Hr Hb]]. rewrite Hb in *.
+  pose proof (objR_expansion n A b d y Hwf Hsym Hl Hy) as HE. cbv zeta in HE.
+  set (e := fun i => vf y i - vf d i) in *.
+  assert (Hg : 0 <= S1 n (fun i => gradR A b d i * e i)).
+  { rewrite <- (S1_zero n (fun _ => 0)) by reflexivity. apply S1_le. intros i Hi.
+    destruct (Hk i Hi) as [H1 [H2 H3]]. specialize (Hpos i Hi).
+    unfold e, vf in *. destruct (Rle_lt_or_eq_dec _ _ H1) as [Hlt|Heq].
+    - rewrite (H2 Hlt). lra.
+    - specialize (H3 (eq_sym Heq)). rewrite <- Heq. nra. }
+  destruct (all_zero_dec n e) as [Hz|Hnz].
+  - apply (nth_ext _ _ 0 0); [lia|]. intros i Hi. rewrite Hy in Hi. specialize (Hz i Hi). unfold e, vf in Hz. lra.
+  - exfalso. set (el := map e (seq 0 n)).
+    assert (Hel : length el = n) by (unfold el; rewrite map_length, seq_length; reflexivity).
+    assert (Hev : forall i, (i < n)%nat -> vf el i = e i) by (intros i Hi; unfold vf, el; apply nth_map_seq; exact Hi).
+    pose proof (Hpd el Hel) as H0. rewrite (quadR_Bil n A b el Hwf Hel) in H0.
+    rewrite (Bil_ext _ n (vf el) (vf el) e e Hev Hev) in H0.
+    assert (0 < Bil (aij A) n e e).
+    { apply H0. destruct Hnz as [i [Hi He]]. exists i. split; [exact Hi|]. change (vf el i <> 0). rewrite Hev by exact Hi. exact He. }
+    lra.
+Qed.
